@@ -64,7 +64,9 @@ def handle (args : List String) (impl : String) : Verdict :=
       let verdict := (requests rules).findSome? fun (h, p) =>
         (checkReq rules fs h p).map fun sig => sig ++ ":" ++ String.ofList h ++ String.ofList p
       -- the signature must not contain the request (known-finding keys are per clause)
-      let sig := verdict.map fun v => (v.splitOn ":").headD v
+      -- a declared path with an empty segment (`//`) is the one listed finding: its own signature
+      let dbl := rules.any fun r => (List.range r.path.length).any fun i => r.path.getD i ' ' = '/' ∧ r.path.getD (i+1) ' ' = '/'
+      let sig := verdict.map fun v => (if dbl then "empty-path-segment-" else "") ++ (v.splitOn ":").headD v
       { model := showLayout (layouts.headD []), agree := agree, oracle := sig,
         trivial := fs.length ≤ 1 }
     | _, _, _ => bad "parse"
